@@ -217,3 +217,18 @@ reg(
     simple("c13"),
     exhaustive={"quick": True, "thorough": True},
 )
+
+reg(
+    "C16",
+    "Conversions to other styling crates preserve colours and effects",
+    "exploration",
+    "cases = (adapter, style): the converted style is rendered by the target library itself (ansi_term paint, crossterm ContentStyle::apply, "
+    "owo_colors style, termcolor Ansi + set_color, yansi paint), the escape codes in front of the payload are interpreted by RefSgr and "
+    "compared with the source on every attribute the target can express; syntect -> anstyle compared field by field; per adapter all "
+    "16+256 colours and a 9^3 RGB lattice per slot x 8 effect sets, all 16x16 palette pairs, all 4096 effect sets x 8 colour settings "
+    "(distinct by construction) plus seeded random styles (distinct by hash); non-trivial = the style is not plain",
+    [A_REFVT, A_REFSGR,
+     "expressibility table fixed from each library's public API (DESIGN 8.8): ansi_term and termcolor have no per-slot brightness (hue compared only; for ansi_term bold is not compared when the foreground is bright, the adapter uses it as an approximation); only crossterm has an underline colour and the four fancy underline styles; termcolor expresses bold, dimmed, italic, underline, strikethrough only"],
+    simple("c16"),
+    exhaustive={"quick": True, "thorough": True},
+)
